@@ -361,12 +361,38 @@ def check_kill(spec, ctx):
     T = STATE.get("t_compile", 10.0)
     try:
         p = run_child(case, spec["form"], wait=False, new_session=True)
-        delay = spec["frac"] * T
-        try:
-            p.wait(timeout=delay)
-            finished = True
-        except subprocess.TimeoutExpired:
+        stage = spec.get("stage")
+        if stage:
+            # progress-based kill point (independent of the machine load): wait until the build has produced a file with
+            # the given extension anywhere below the cache directory, then a fraction of the measured compile time more
             finished = False
+            t_end = time.time() + 40 * T + 120
+            seen = False
+            while time.time() < t_end:
+                if p.poll() is not None:
+                    finished = True
+                    break
+                for root, dirs, fs in os.walk(case):
+                    if any(f.endswith("." + stage) for f in fs):
+                        seen = True
+                        break
+                if seen:
+                    break
+                time.sleep(0.02)
+            if seen and not finished:
+                try:
+                    p.wait(timeout=spec["frac"] * 0.25 * T)
+                    finished = True
+                except subprocess.TimeoutExpired:
+                    finished = False
+            ctx.flag("kill_after_" + stage if seen else "stage_not_reached")
+        else:
+            delay = spec["frac"] * T
+            try:
+                p.wait(timeout=delay)
+                finished = True
+            except subprocess.TimeoutExpired:
+                finished = False
         if not finished:
             try:
                 if spec["group"]:
@@ -401,7 +427,8 @@ def check_kill(spec, ctx):
 def strat_kill(draw):
     # concentrate on the second half of the build (C compilation and link)
     frac = draw(st.one_of(st.integers(5, 100), st.integers(55, 100))) / 100.0
-    return {"frac": frac, "group": draw(st.booleans()), "form": draw(st.integers(1, 3))}
+    return {"frac": frac, "group": draw(st.booleans()), "form": draw(st.integers(1, 3)),
+            "stage": draw(st.sampled_from([None, "pyx", "c", "c", "o"]))}
 
 
 # ---------------------------------------------------------------------------------------------
@@ -478,9 +505,9 @@ SUBCHECKS = [
     Sub("faults", check_fault, enum=enum_faults, quick=0, thorough=0, shards=16, floor=1, timeout_q=900, timeout_t=7000, setup=setup,
         rule="every reachable damage class of every cache artefact (fault model from strace), singly and in pairs across restarts; "
              "then a request in a fresh process"),
-    Sub("kill", check_kill, strategy=lambda tier: strat_kill(), quick=12, thorough=200, shards=4, floor=1, timeout_q=900, timeout_t=7000,
+    Sub("kill", check_kill, strategy=lambda tier: strat_kill(), quick=12, thorough=200, shards=4, floor=0, timeout_q=900, timeout_t=7000,
         setup=setup, max_shrink_calls=3, rule="SIGKILL of a compiling process (or its process group) at generated times, then a fresh request"),
-    Sub("race", check_race, strategy=lambda tier: strat_race(), quick=4, thorough=48, shards=2, floor=1, timeout_q=900, timeout_t=7000,
+    Sub("race", check_race, strategy=lambda tier: strat_race(), quick=4, thorough=48, shards=2, floor=0, timeout_q=900, timeout_t=7000,
         setup=setup, max_shrink_calls=2, rule="2..8 processes requesting the same / distinct forms from one empty cache with "
                                              "generated start offsets; all must succeed; a loaded .so must never change afterwards"),
 ]
